@@ -123,6 +123,37 @@ def execute(mat, ctx):
                 V(recs[0]).assemble(*[M(r) for r in recs[1:]])
         except Exception:
             pass
+    # the same wrapper objects across a failed call and the corrected one (what a user fixing a forgotten module does)
+    ev, em = V(vrec), [M(r) for r in mrecs]
+    if len(em) > 1:
+        _mon.tag = {"call": "same-wrappers:forgotten-module"}
+        try:
+            with _w.catch_warnings():
+                _w.simplefilter("ignore")
+                ev.assemble(*em[:-1] if rng.random() < 0.5 else em[1:])
+        except Exception:
+            pass
+    else:
+        _mon.tag = {"call": "same-wrappers:warning-as-error"}
+        try:
+            with _w.catch_warnings():
+                _w.simplefilter("error")
+                ev.assemble(*(em + [M(gen.make_record(dict(mat["modules"][0], id="twin")))]))
+        except Exception:
+            pass
+    _mon.tag = {"call": "same-wrappers:corrected-call"}
+    ctx.count("c10_corrected_calls_on_same_wrappers")
+    try:
+        with _w.catch_warnings():
+            _w.simplefilter("ignore")
+            p2 = ev.assemble(*em, id=mat.get("id", "assembly"), name=mat.get("name", "assembly"))     # judged by the monitor
+        sig = (str(p2.seq), _features_wo_citation(p2), [f.qualifiers.get("citation") for f in p2.features],
+               [asmmon.flat_ref(r) for r in p2.annotations.get("references", [])])
+        if sig != first:
+            ctx.violation("corrected-call-after-failure-differs", "the corrected call on the same vector/module objects after a failed call differs from a first call (%s)" % (
+                "sequence" if sig[0] != first[0] else "features" if sig[1] != first[1] else "citations/references"))
+    except Exception as e:
+        ctx.violation("corrected-call-after-failure-raises:%s" % type(e).__name__, "the corrected call on the same vector/module objects raised %s: %s" % (type(e).__name__, str(e)[:160]))
     if ctx.counters["c10_products_with_surviving_citations"] > before:
         ctx.nontrivial([mat["enzyme"], mat["vector"]["seq"], [m["seq"] for m in mat["modules"]]])
         ctx.sample({"enzyme": mat["enzyme"], "references_per_record": [len(s.get("refs", [])) for s in [mat["vector"]] + mat["modules"]],
